@@ -11,7 +11,8 @@ Outside the equality claim (DESIGN §6 C03; the meaning of such documents is inh
 the oracle returns [] for them: a link given twice (same or complement form) with different tags; a path step
 that two different stored links satisfy.  Lines sharing an O-group identifier keep their relative order in every
 permutation (their items are concatenated in arrival order); the items of U lines are compared as a multiset;
-the order of tags inside a written line is ignored (a merged group collects its tags in arrival order).
+the order of tags inside a written line is ignored (a merged group collects its tags in arrival order); tags of
+the delayed-parsing datatypes (B, J, H) are compared by value (level-0 lazy spelling is C18's open finding).
 
 NOT CHECKED:
   * that a document rejected in *every* order should have been accepted (C01's business): only a difference of
@@ -22,7 +23,6 @@ NOT CHECKED:
   * documents with custom record types P/C/L, tag-like sequences, header tags repeated with different datatypes.
 """
 import itertools
-import re
 from harness import lib
 from harness.props import _docgen as D
 
@@ -66,11 +66,11 @@ def exhaustive_case(i, tier):
 
 
 def budget(tier):
-    return 70 if tier == "quick" else 1200
+    return 70 if tier == "quick" else 400
 
 
 def gen_case(rng, tier, i):
-    ml = rng.choice([3, 4, 5, 5, 6, 6]) if tier == "quick" else rng.choice([5, 6, 7, 7, 9, 12, 20])
+    ml = rng.choice([3, 4, 5, 5, 6, 6]) if tier == "quick" else rng.choice([4, 5, 6, 6, 7, 8, 10, 16])
     d = D.gen_doc(rng, max_lines=ml, same_id_groups=True, odd=0.2)
     return {"version": d["version"], "lines": d["lines"], "features": d["features"],
             "vlevel": rng.choice([1, 1, 1, 0, 2, 3]), "ver_param": rng.choice([None, None, None, d["version"]]),
@@ -138,7 +138,9 @@ def norm_line(s):
     """written line with the tags sorted and the items of a U line sorted"""
     if not isinstance(s, str) or s.startswith("#"):
         return s
-    f = s.split("\t")
+    # tags of the delayed-parsing datatypes by value: at level 0 their spelling (input vs canonical) depends on
+    # whether the tag has been read, which is C18's open finding `lazy-spelling`, not an order dependence
+    f = D.canon_delayed(s).split("\t")
     i = D.split_tags(f)
     pos, tg = f[:i], sorted(f[i:])
     if pos and pos[0] == "U" and len(pos) > 2:
